@@ -220,9 +220,31 @@ def run_case(data):
     r.step('setup', 'client' if client else 'server', 'reset', victims, 'cleaned-up', cleaned)
     # -- in-flight frames of a peer that has not seen the reset -------------------
     targets = list(victims)
+    next_own = [7 if client else 2]
     for _ in range(ch.int(1, 14)):
         if r.violations:
             break
+        if ch.chance(36):
+            # between two racing frames the application makes a call that is refused (an opening block that fails
+            # validation, a push or DATA on the stream it has just reset): nothing is sent, and the connection
+            # remembers its reset streams exactly as before
+            v = ch.pick(victims)
+            how = ch.pick(['bad-open', 'on-victim', 'on-victim'] if client else ['push-on-victim', 'on-victim'])
+            if how == 'bad-open':
+                o = s.call('send_headers', next_own[0], [(b':method', b'GET'), (b':scheme', b'https'),
+                                                         (b':authority', b'a'), (b'te', b'gzip')])
+            elif how == 'push-on-victim':
+                o = s.call('push_stream', v, next_own[0], REQ)
+            else:
+                o = s.call(*ch.pick([('send_data', v, b'x'), ('end_stream', v)]))
+            r.step('refused application call', how, v, o.brief())
+            if o.ok:
+                viol('call-on-reset-stream-accepted:%s' % how, repr(o.frames)[:100])
+                break
+            if o.out:
+                viol('refused-call-emitted:%s' % how, o.out.hex()[:40])
+            r.labels.add('refused-call-between-racing-frames')
+            continue
         sid = ch.pick(targets)
         ps = peer[sid]
         if ps.reset:
